@@ -551,7 +551,7 @@ def run(ctx):
     # ------------------------------------------------------------------ cube
     NC = ctx.budget(5, 7)
     mcases, mmeta = [], []
-    for n in range(-1, NC + 1):
+    for n in list(range(-1, NC + 1)) + [10, 11] + ([] if ctx.quick() else [12, 13]):        # 10+: layer indexes with two digits
         obs = observe(lambda n=n: cube.generate_cube_permutations_oneline(n))
         case = {"kind": "cube_moves", "n": n}
         if obs[0] == "ok":
@@ -571,7 +571,7 @@ def run(ctx):
         report("correspondence", "cube move generator model differs from the implementation", mmeta[i], False)
     cc, cm = [], []
     for metric in ["QSTM", "QTM", "HTM", "ATM", "fixed_QTM", "fixed_HTM", "qtm", ""]:
-        for n in range(0, NC + 1):
+        for n in list(range(0, NC + 1)) + [11]:
             if metric == "ATM" and n > ctx.budget(4, 5):
                 continue
             obs = observe(lambda n=n, metric=metric: Puzzles.rubik_cube(n, metric))
